@@ -1,2 +1,70 @@
-(* PropsC05.v — C05: every input shape normalizes to the same canonical tree. *)
-From Ucfg Require Import Base ParseInt Consts Field Tree PathOps Merge OTree VarParse Normalize.
+(* PropsC05.v — C05: every input shape normalizes to the same canonical tree.
+   Statements only; proofs are in ProofsNormData.v and ProofsNormalize.v.
+
+   Modelled rather than proved: the map from Go values to the universe gval (pointers and
+   interfaces chased, every map kind with string or interface keys is GMap, slices and arrays
+   are GList, structs are GStruct with their tags) is the harness's printer coqGval; the
+   correspondence run compares normalize on its output with NewFrom on the Go value. *)
+From Coq Require Import Permutation Sorting.Sorted.
+From Ucfg Require Import Base ParseInt Consts Field Tree PathOps Merge OTree VarParse Normalize
+     ProofsNormalize ProofsNormData.
+
+(* Data in = data out, for EVERY plain data tree of any depth and width given as generic maps
+   and lists (no path separator, no variable expansion): the config exists and its generic
+   view holds the same data, numbers compared by value, nil and empty containers equal. *)
+Theorem c05_data_in_data_out : forall o, p_sep (n_p o) = "" -> n_varexp o = false ->
+  forall t, plain o t ->
+  exists v, normalize_value o (gval_of t) = Ok (v, None) /\
+            canon (numc (strip v)) = canon (numc t).
+Proof. exact data_in_data_out. Qed.
+Print Assumptions c05_data_in_data_out.
+
+(* ... exactly: positive integers come back unsigned, an empty object comes back as nil,
+   and nothing else changes *)
+Theorem c05_generic_view_exact : forall o, p_sep (n_p o) = "" -> n_varexp o = false ->
+  forall t, plain o t ->
+  exists v, normalize_value o (gval_of t) = Ok (v, None) /\ strip v = back t.
+Proof. exact normalize_value_back. Qed.
+Print Assumptions c05_generic_view_exact.
+
+(* Feeding the result back in yields a config with an identical generic view. *)
+Theorem c05_feeding_back_is_identity : forall o, p_sep (n_p o) = "" -> n_varexp o = false ->
+  forall t, plain o t ->
+  exists v v2, normalize_value o (gval_of t) = Ok (v, None) /\
+               normalize_value o (gval_of (strip v)) = Ok (v2, None) /\
+               strip v2 = strip v.
+Proof. exact normalize_back_again. Qed.
+Print Assumptions c05_feeding_back_is_identity.
+
+(* The order in which a map is enumerated (at any depth) does not matter, so the ascending
+   order assumed by [plain] is no restriction. *)
+Theorem c05_enumeration_order_irrelevant : forall o g g',
+  gperm g g' -> normalize o g = normalize o g'.
+Proof. exact normalize_gperm. Qed.
+Print Assumptions c05_enumeration_order_irrelevant.
+
+(* non-vacuity, and a dotted key next to the nesting it duplicates is rejected *)
+Theorem c05_plain_example :
+  let o := {| n_p := {| p_sep := ""; p_maxIdx := 1024; p_numKeys := false; p_escape := false |};
+              n_varexp := false; n_m := {| m_h := 0%N; m_ft := None |} |} in
+  let t := OMap [("a", OList [OInt 3; OStr "x${y}"; OMap []]); ("b", OMap [("c", ONil); ("d.e", OBool true)])] in
+  plain o t /\
+  (x <- normalize_value o (gval_of t) ;; Ok (strip (fst x)))
+  = Ok (OMap [("a", OList [OUint 3; OStr "x${y}"; ONil]); ("b", OMap [("c", ONil); ("d.e", OBool true)])]).
+Proof. exact plain_example. Qed.
+Print Assumptions c05_plain_example.
+
+Theorem c05_duplicate_example :
+  let o := {| n_p := {| p_sep := "."; p_maxIdx := 1024; p_numKeys := false; p_escape := false |};
+              n_varexp := false; n_m := {| m_h := 0%N; m_ft := None |} |} in
+  normalize o (GMap true [(KStr "a.b", GUint 1); (KStr "a", GMap true [(KStr "b", GUint 2)])])
+  = normalize o (GMap true [(KStr "a", GMap true [(KStr "b", GUint 2)]); (KStr "a.b", GUint 1)])
+  /\ normalize o (GMap true [(KStr "a.b", GUint 1); (KStr "a", GMap true [(KStr "b", GUint 2)])])
+     = Err EDuplicateKey "a.b".
+Proof. exact sorted_visit_example. Qed.
+Print Assumptions c05_duplicate_example.
+
+(* NOT proved here (c05 is partial in this respect): the equivalence of dotted keys and nesting
+   for all partial flattenings, the struct / typed-map representations, and duplicate
+   rejection for all overlapping spellings. They are decided by the correspondence run only
+   (and F9b shows the last one false for two object-valued spellings). *)
